@@ -35,7 +35,7 @@ ASSUMPTIONS = E1_ASSUMPTIONS + [
     "does not choose); both are accepted",
     "the @module clauses are a pure function of the file text; they are checked because the pages exist, simulation adds "
     "nothing to them"]
-PROBES = ["stale_pages_in_output_dir", "module_named_like_generated", "subdir_named_like_prefix", "other_input_first", "single_file_input", "dir_input", "spelled_dot", "spelled_dotdot", "spelled_abs", "spelled_trailing_slash",
+PROBES = ["path_spelled_with_separator_twin", "stale_pages_in_output_dir", "module_named_like_generated", "subdir_named_like_prefix", "other_input_first", "single_file_input", "dir_input", "spelled_dot", "spelled_dotdot", "spelled_abs", "spelled_trailing_slash",
           "prefix_default", "prefix_cli", "prefix_sfile", "prefix_user", "sep_not_dot", "ext_in_titles", "ext_in_modules",
           "custom_headers", "module_named", "module_unnamed", "module_body", "depth_ge_2", "moved_tree"]
 
@@ -77,6 +77,20 @@ def strategy(cfg):
                 rst["file_extensions_in_titles"] = draw(st.booleans())
             if draw(st.booleans()):
                 rst["file_extensions_in_modules"] = draw(st.booleans())
+        if draw(st.integers(0, 3)) == 0:
+            # a file in a subdirectory and a sibling file whose NAME spells that path with the separator:
+            # 'x/y.cmake' next to 'x<sep>y.cmake' - two different files that must not end up with one title
+            sep_ = rst.get("module_path_separator", ".")
+            nested = sorted(r for r in tree if tree[r] is not None and r.count("/") == 1 and r.endswith(".cmake"))
+            if nested and "/" not in sep_:
+                r = draw(st.sampled_from(nested))
+                twin = r.replace("/", sep_)
+                pdir = posixpath.dirname(twin)
+                taken = {refs.stem(posixpath.basename(k)) for k in tree
+                         if tree[k] is not None and posixpath.dirname(k) == pdir and "." in posixpath.basename(k)}
+                names_here = {posixpath.basename(k) for k in tree if posixpath.dirname(k) == pdir}
+                if refs.stem(posixpath.basename(twin)) not in taken and posixpath.basename(twin) not in names_here:
+                    tree[twin] = "function(zqtwin_of_nested a)\nendfunction()\n"
         if not single and draw(st.integers(0, 3)) == 0:
             # '@module NAME' where NAME is spelled exactly like the module name CMinx would generate anyway
             eff = prefix if prefix is not None else proj_name
@@ -338,6 +352,8 @@ def _probes(ctx, spec, tree):
         ctx.probes["ext_in_modules"] += 1
     if rst.get("headers"):
         ctx.probes["custom_headers"] += 1
+    if any(tree[r] == "function(zqtwin_of_nested a)\nendfunction()\n" for r in tree):
+        ctx.probes["path_spelled_with_separator_twin"] += 1
     eff = spec["prefix"] if spec["prefix"] is not None else spec["proj_name"]
     if any(rel.split("/")[0] == eff and tree[rel] is None for rel in tree):
         ctx.probes["subdir_named_like_prefix"] += 1
